@@ -738,6 +738,9 @@ def run_property(pid, tier="quick", seed=0, update_baseline=False, jobs=None):
             samples=samples,
             functions_under_contract=[dict(func=r["func"], file=r.get("file"), lines=r.get("lines"), sha256=r.get("sha256"),
                                            obligations=len(r["obligations"]), paths=len(r.get("outcomes", [])),
+                                           # how the explored paths ended: returned / raised / one loop iteration verified /
+                                           # pruned by a false assumption (contradictory case combination of the setup)
+                                           path_outcomes=_outcome_counts(r.get("outcomes", [])),
                                            inlined=r.get("inlined", []), canary=r.get("canary"), error=r["error"], wall_s=r["wall_s"])
                                       for r in results],
             lemmas=[dict(lemma=r["lemma"], obligations=len(r["obligations"]), error=r["error"]) for r in lemma_results],
@@ -810,6 +813,14 @@ def _glob(pattern, name):
 
 
 import re as _re
+
+
+def _outcome_counts(outcomes):
+    c = {}
+    for o in outcomes:
+        k = (o[0] if o[0] != "end" else f"end:{o[1]}") if isinstance(o, (list, tuple)) and o else str(o)
+        c[k] = c.get(k, 0) + 1
+    return c
 
 
 def _only_known_classes(replay, known):
